@@ -1,19 +1,19 @@
 SPECIFICATION MCSpec
 CONSTANTS
   Item = {"a", "b", "c", "d"}
-  Missing = {"m"}
+  Missing = {}
   ItemSeq <- Seq4
-  MissSeq <- Miss1
-  MaxDepLen = 3
-  SchedLen = 5
-  MaxPer = 2
-  RepeatDeps = TRUE
+  MissSeq <- Miss0
+  MaxDepLen = 2
+  SchedLen = 4
+  MaxPer = 1
+  RepeatDeps = FALSE
   CycleItems = FALSE
   Defect_ReadyLen = FALSE
   Defect_CommitFirst = FALSE
   Concurrent = FALSE
-  InputPoints = {"idle", "new", "begin", "take", "get", "commit", "ret", "notified"}
-  MaxCancel = 2
+  InputPoints = {"idle", "notified"}
+  MaxCancel = 0
 INVARIANTS
   TypeOK
   C11_DepsFirst
@@ -22,3 +22,4 @@ INVARIANTS
   C11_QueueComplete
   C11_AllReleasedAtQuiescence
   C12_NoLoss
+VIEW NoHistView
